@@ -74,6 +74,9 @@ func objExpr(o *object.Object, info expr.RefInfo) (expr.Value, error) {
 		return expr.String(o.ID()), nil
 	case "type":
 		return typeForObject(o), nil
+	case "z":
+		// the reserved name of the third coordinate, as in the other WHERE forms
+		return expr.Number(extractZCoordinate(o.Geo())), nil
 	default:
 		var rf field.Field
 		var ok bool
